@@ -21,6 +21,7 @@ import (
 	"fmt"
 	"log"
 	"reflect"
+	"sort"
 	"sync"
 	"sync/atomic"
 	"time"
@@ -259,25 +260,28 @@ func (sw *SlidingWindow) Add(data any) {
 		switch {
 		case !sw.watermark.GetCurrentWatermark().Before(closeTime):
 			sw.dropLastRow()
-		case sw.initialized && sw.currentSlot != nil && sw.currentSlot.Contains(eventTime):
-			// watermark advanced past the window start but the window has not
-			// triggered yet; the row triggers normally, keep it.
-		case sw.config.AllowedLateness > 0:
+		default:
+			// Windows overlap, so the two cases are not exclusive: the row may sit in
+			// the current not-yet-triggered window (it then triggers normally, keep it)
+			// and, when AllowedLateness > 0, also in already triggered windows that are
+			// still open — those need a late update as well.
+			inCurrent := sw.initialized && sw.currentSlot != nil && sw.currentSlot.Contains(eventTime)
 			placed := false
-			for _, info := range sw.triggeredWindows {
-				if info.slot.Contains(eventTime) {
-					sw.handleLateData(eventTime, sw.config.AllowedLateness)
-					placed = true
-					break
+			if sw.config.AllowedLateness > 0 {
+				for _, info := range sw.triggeredWindows {
+					if info.slot.Contains(eventTime) {
+						placed = true
+						break
+					}
 				}
 			}
-			if !placed {
-				// beyond allowed lateness with no open triggered window: drop
+			switch {
+			case placed:
+				sw.handleLateData(eventTime, sw.config.AllowedLateness)
+			case !inCurrent:
+				// not in the current window and no open triggered window: drop
 				sw.dropLastRow()
 			}
-		default:
-			// AllowedLateness == 0 (default) and not in the current window: drop
-			sw.dropLastRow()
 		}
 	}
 }
@@ -866,13 +870,21 @@ func (sw *SlidingWindow) getWindowKey(endTime time.Time) string {
 
 // handleLateData handles late data that arrives within allowedLateness
 func (sw *SlidingWindow) handleLateData(eventTime time.Time, allowedLateness time.Duration) {
-	// Find which triggered window this late data belongs to
+	// Sliding windows overlap: the late event belongs to every triggered window
+	// that covers it and is still open, not just to one of them (which one used to
+	// depend on map iteration order). Collect them first — triggerLateUpdateLocked
+	// releases the lock while it delivers — and re-emit each, oldest first.
+	var slots []*types.TimeSlot
 	for _, info := range sw.triggeredWindows {
 		if info.slot.Contains(eventTime) {
-			// This late data belongs to a triggered window that's still open
+			slots = append(slots, info.slot)
+		}
+	}
+	sort.Slice(slots, func(i, j int) bool { return slots[i].End.Before(*slots[j].End) })
+	for _, slot := range slots {
+		if _, open := sw.triggeredWindows[sw.getWindowKey(*slot.End)]; open {
 			// Trigger window again with updated data (late update)
-			sw.triggerLateUpdateLocked(info.slot)
-			return
+			sw.triggerLateUpdateLocked(slot)
 		}
 	}
 }
